@@ -67,11 +67,16 @@ pub enum Expr {
 }
 
 pub fn fmt_f32(x: f32) -> String {
-    // a spelling the truth lexer accepts: digits '.' digits; negative handled by caller
+    // a spelling the truth lexer accepts (digits '.' digits, no exponent) that parses back to exactly x
     debug_assert!(x.is_finite());
-    let s = format!("{:?}", x.abs());
-    let s = if s.contains('e') || s.contains("inf") || s.contains("NaN") { format!("{:.10}", x.abs()) } else { s };
-    let s = if s.contains('.') { s } else { format!("{}.0", s) };
+    let a = x.abs();
+    let mut s = format!("{:?}", a);
+    if s.contains('e') || !s.contains('.') {
+        // exact decimal expansion, trailing zeros trimmed
+        s = format!("{:.160}", a);
+        while s.ends_with('0') && !s.ends_with(".0") { s.pop(); }
+    }
+    debug_assert!(s.parse::<f32>().map(|y| y.to_bits() == a.to_bits()).unwrap_or(false), "{}", s);
     if x.is_sign_negative() { format!("-{}", s) } else { s }
 }
 
